@@ -6,6 +6,7 @@ CONSTANTS
   MaxIssued = 0
   Rebootstrap = FALSE
   Wipeouts = FALSE
+  Collide = FALSE
   Times = {1, 2}
   Design = "legacy_template"
 SPECIFICATION Spec
